@@ -21,6 +21,11 @@ Ambiguous(prefix, rules, row) == Cardinality(DirectIdx(rules, row) \cup NegIdx(p
    spliced in at that rule's position.  So a %global entry declared before a block rule ranks before the block's own child rules, one
    declared after it ranks after them ("a command matched by an earlier rule comes before one matched by a later rule" reads the
    rule text top to bottom at every depth).  An unranked row hands down the %global entries only.                                  *)
+\* an ordering rule may be limited to a scope (%scope=patch): it takes part only when the caller orders in that scope -- patches are
+\* ordered in scope "patch", generated configurations (order_config) in no scope, where scoped rules do not exist
+RECURSIVE InScope(_, _)
+InScope(rules, scope) == LET keep == SelectSeq(rules, LAMBDA r : r.scope = "" \/ r.scope = scope) IN
+                         [k \in DOMAIN keep |-> [keep[k] EXCEPT !.kids = InScope(@, scope)]]
 Splice(vis, k) == FlatSeq([i \in DOMAIN vis |-> (IF vis[i].glob THEN <<vis[i]>> ELSE <<>>) \o (IF i = k THEN vis[i].kids ELSE <<>>)])
 OrdKids(prefix, vis, row) == LET r == Rank(prefix, vis, row) IN Splice(vis, IF r > 0 THEN r ELSE 0 - r)
 
